@@ -31,6 +31,7 @@ def make_triangle_mesh(points, size_u, size_v, **kwargs):
     * ``trims``: List of trim curves passed to the tessellation function
     * ``tessellate_func``: Function called for tessellation. *Default:* :func:`.tessellate.surface_tessellate`
     * ``tessellate_args``: Arguments passed to the tessellation function (as a dict)
+    * ``domain``: Parametric domain of the surface as ((u_start, u_stop), (v_start, v_stop)). *Default: ((0, 1), (0, 1))*
 
     The tessellation function is designed to generate triangles from 4 vertices. It takes 4 :py:class:`.Vertex` objects,
     index values for setting the triangle and vertex IDs and additional parameters as its function arguments.
@@ -90,16 +91,17 @@ def make_triangle_mesh(points, size_u, size_v, **kwargs):
     tri_idx = 0  # triangle index numbering start
 
     # Variable initialization
-    u_jump = (1.0 / float(size_u - 1)) * vertex_spacing  # for computing vertex parametric u value
-    v_jump = (1.0 / float(size_v - 1)) * vertex_spacing  # for computing vertex parametric v value
+    domain = kwargs.get('domain', ((0.0, 1.0), (0.0, 1.0)))  # parametric domain of the surface
+    u_jump = (float(domain[0][1] - domain[0][0]) / float(size_u - 1)) * vertex_spacing  # for computing vertex parametric u value
+    v_jump = (float(domain[1][1] - domain[1][0]) / float(size_v - 1)) * vertex_spacing  # for computing vertex parametric v value
     varr_size_u = len(range(0, size_u, vertex_spacing))  # vertex array size on the u-direction
     varr_size_v = len(range(0, size_v, vertex_spacing))  # vertex array size on the v-direction
 
     # Generate vertices directly from input points (preliminary evaluation)
     vertices = [Vertex() for _ in range(varr_size_v * varr_size_u)]
-    u = 0.0
+    u = float(domain[0][0])
     for i in range(0, size_u, vertex_spacing):
-        v = 0.0
+        v = float(domain[1][0])
         for j in range(0, size_v, vertex_spacing):
             idx = j + (i * size_v)
             vertices[vrt_idx].id = vrt_idx
